@@ -33,8 +33,52 @@ def corrupt(rec, rng):
     return None
 
 
+VECTOR_DIR = os.path.join(C.REPO, "paseto-test", "tests", "vectors")
+
+
+def vector_extras(path):
+    """length tuples, PBKW costs and v1 key lengths of the official positive vectors (so that TLC builds their terms)"""
+    import binascii
+    tuples, pw, v1 = set(), set(), set()
+
+    def tests(f):
+        try:
+            return json.load(open(os.path.join(VECTOR_DIR, f)))["tests"]
+        except Exception:
+            return []
+    for ver in range(1, 5):
+        for t in tests("v%d.json" % ver):
+            if not t.get("expect-fail"):
+                tuples.add((len(t["payload"].encode()), len(t["footer"].encode()), len(t["implicit-assertion"].encode())))
+        for f in ("local-pw", "secret-pw"):
+            for t in tests("k%d.%s.json" % (ver, f)):
+                if t.get("expect-fail") or not t.get("paserk"):
+                    continue
+                import base64
+                body = t["paserk"].split(".")[-1]
+                blob = base64.urlsafe_b64decode(body + "=" * (-len(body) % 4))
+                if ver in (1, 3):
+                    pw.add((ver, int.from_bytes(blob[32:36], "big"), 0, 0))
+                else:
+                    pw.add((ver, int.from_bytes(blob[16:24], "big") // 1024, int.from_bytes(blob[24:28], "big"), int.from_bytes(blob[28:32], "big")))
+        for f in ("secret-wrap.pie", "secret-pw"):
+            for t in tests("k1.%s.json" % f):
+                if not t.get("expect-fail") and t.get("unwrapped"):
+                    b = binascii.unhexlify(t["unwrapped"])
+                    if b[:1] == b"-":
+                        import base64
+                        b = base64.b64decode(b"".join(l for l in b.splitlines() if not l.startswith(b"-----")))
+                    v1.add(len(b))
+    json.dump({"tuples": sorted(map(list, tuples)), "pw": sorted(map(list, pw)), "v1secret": sorted(v1)}, open(path, "w"))
+    return len(tuples), len(pw)
+
+
 def generate_terms(out, tier, name):
-    r = C.tlc("Gen_Terms", "Gen_Terms_%s.cfg" % tier, "gen", name + "-gen", workers=8, timeout=3600, heap="12g")
+    d = C.ensure_dir(os.path.join(C.BUILD, name))
+    extra = os.path.join(d, "extra.json")
+    nt, npw = vector_extras(extra)
+    out.extra["vector_length_tuples"] = nt
+    r = C.tlc("Gen_Terms", "Gen_Terms_%s.cfg" % tier, "gen", name + "-gen", workers=8, timeout=3600, heap="12g", env_extra={"PV_EXTRA": extra})
     C.tlc_must_pass(r, "Gen_Terms")
     out.add_tlc(r)
     cases = [json.loads(json.loads('"' + m + '"')) for m in re.findall(r'<<"TERM", "(.*)">>', r.out)]
@@ -58,7 +102,7 @@ def run(out, tier, seed, prop="C03"):
     json.dump(cases, open(cf, "w"))
     out.extra["generated_cases"] = len(cases)
     f = os.path.join(d, "obs.ndjson")
-    p = C.harness(["obs-terms", "--cases", cf, "--out", f, "--tier", tier, "--seed", str(seed), "--kinds", ",".join(kinds)], timeout=7200)
+    p = C.harness(["obs-terms", "--cases", cf, "--out", f, "--tier", tier, "--seed", str(seed), "--kinds", ",".join(kinds), "--vectors", VECTOR_DIR], timeout=7200)
     out.extra["harness"] = json.loads(p.stdout.strip().splitlines()[-1])
     obs.validate(out, "Obs_Terms", f, prop.lower() + "-obs", classify, workers=8)
     out.extra["negative_control_rejected"] = obs.negative_control("Obs_Terms", f, prop.lower(), corrupt, k=6, seed=seed)
@@ -80,6 +124,6 @@ def run(out, tier, seed, prop="C03"):
     out.extra["records_by_kind_direction_backend"] = by
     out.assumptions += [
         "each primitive library is trusted only as a primitive; the two families are forced to agree with each other through the terms",
-        "L1 (Construct.tla) is written from the PASETO/PASERK texts; the official vectors pin it transitively (the repository's suite pins the code to the vectors, this check pins the code to L1 on thousands of inputs)",
+        "L1 (Construct.tla) is written from the PASETO/PASERK texts and is pinned to the official vectors directly: every positive vector of the working tree's vector files must equal the evaluated term under both primitive families (records with dir = vector)",
         "derived counter blocks (v3 local, PIE and PKE of k1/k3) are substituted through the cfg-guarded hook paseto_core::verif; embedded-IV sites (v1 local, PBKW k1/k3) need no hook",
     ]
